@@ -244,6 +244,20 @@ func (x *Exec) applyContract(st *State, site ast.Node, key string, clauses []*Cl
 	return res
 }
 
+// sortOfName: anyelems(uint) / anyelems(T) name the element sort directly.
+func sortOfName(e *SX) string {
+	if e.Op != "id" {
+		return ""
+	}
+	switch e.Name {
+	case "uint", "int", "uint64", "int64":
+		return "Int"
+	case "T":
+		return "T"
+	}
+	return ""
+}
+
 func keyPkg(key string) string {
 	// "path/to/pkg.(*T).M" or "path/to/pkg.F"
 	k := strings.LastIndex(key, "/")
@@ -323,8 +337,11 @@ func (x *Exec) havocTarget(st *State, pre *SEnv, t *SX) {
 		havocAt("arr_"+sortTag(es), app("sl_arr", s.T))
 	case t.Op == "call" && t.Name == "anyelems":
 		// any backing array with the element sort of the argument may change
-		s := pre.eval(t.Args[0])
-		es, _ := x.elemSort(s)
+		es := sortOfName(t.Args[0])
+		if es == "" {
+			s := pre.eval(t.Args[0])
+			es, _ = x.elemSort(s)
+		}
 		cur := x.arrComp(st, es)
 		name := "arr_" + sortTag(es)
 		st.heap[name] = Val{T: x.freshConst("hv_"+name, cur.S), S: cur.S}
